@@ -83,10 +83,16 @@ def check_queries(sched, live, starts, res, tag, nontrivial):
             direct_down = {b for a, b in edges if a in starts}
             up = closure(members, edges, starts, False)
             down = closure(members, edges, starts, True)
-            expect('predecessors', sched.predecessors(*sobj), direct_up)
-            expect('successors', list(sched.successors(*sobj)), direct_down)
-            expect('predecessors_upstream', sched.predecessors_upstream(*sobj), up)
-            expect('successors_downstream', sched.successors_downstream(*sobj), down)
+            # the first query after an edit sees whatever internal state the edit left
+            # behind (reverse links are recomputed on demand): rotate which query is first
+            queries = [
+                ('predecessors', lambda: sched.predecessors(*sobj), direct_up),
+                ('successors', lambda: list(sched.successors(*sobj)), direct_down),
+                ('predecessors_upstream', lambda: sched.predecessors_upstream(*sobj), up),
+                ('successors_downstream', lambda: sched.successors_downstream(*sobj), down)]
+            rot = (len(edges) + len(members)) % 4
+            for name, call, want in queries[rot:] + queries[:rot]:
+                expect(name, call(), want)
             if up != direct_up or down != direct_down:
                 nontrivial.append('closure-differs-from-direct')
             if len(starts) >= 2:
